@@ -153,7 +153,7 @@ def cli_sample(ctx, pool):
     os.makedirs(out_dir, exist_ok=True)
     for kind in ('stop', 'undef-element', 'sec4-len-minus'):
         bad = S.damage(d[0]['bytes'], kind, ctx.rng)
-        path = os.path.join(out_dir, 'C12_cli_%s.bufr' % kind)
+        path = os.path.join(out_dir, 'C12_cli_%s_%d.bufr' % (kind, os.getpid()))
         with open(path, 'wb') as f:
             f.write(bad)
         env = dict(os.environ, PYTHONPATH=lib.REPO)
